@@ -51,11 +51,13 @@ def execute(rel):
 def rich_alphabet():
     a = [P.wait(n) for n in (1, 2, 3, 7)]
     for c in (0, 1, 2):
-        for p in (0, 1, 2, 60, 61):
+        for p in (0, 1, 2, 60, 61, 126, 127):
             a.append({**P.on(-1, c, p, 80)})
             a.append({**P.off(-1, c, p)})
     a += [P.ts(-1, 4, 4), P.ts(-1, 3, 4), P.ts(-1, 6, 8), P.ks(-1, "C"), P.ks(-1, "G"), P.ks(-1, "Eb"),
-          P.cc(-1, 64, 127), P.pc(-1, 5)]
+          P.cc(-1, 64, 127), P.pc(-1, 5),
+          # the same signatures carried on other channels (parts of several instruments in one sequence)
+          P.ts(-1, 4, 4, 1), P.ts(-1, 3, 4, 2), P.ks(-1, "C", 1), P.ks(-1, "G", 2)]
     return a
 
 
